@@ -59,10 +59,15 @@ func (v *Voting[T, _]) AddVote(sender common.Address, candidate T) error {
 
 // outcomeIndex checks if one of the candidate indices has more than numRequiredVotes.
 func (v *Voting[_, _]) outcomeIndex(numRequiredVotes int) (int, bool) {
-	numVotes := make(map[int]int)
+	// Count per candidate index and scan the candidates in index order, so that the outcome is
+	// a function of the votes only (and not of Go's randomized map iteration order) when more
+	// than one candidate has reached numRequiredVotes.
+	numVotes := make([]int, len(v.Candidates))
 
 	for _, vote := range v.Votes {
-		numVotes[vote]++
+		if vote >= 0 && vote < len(numVotes) {
+			numVotes[vote]++
+		}
 	}
 	for index, votes := range numVotes {
 		if votes >= numRequiredVotes {
